@@ -96,10 +96,15 @@ def mon_c02(run):
     fin = {}
     starts = {}
     finishes = {}
+    cancelled = set()
     for e in run["log"]:
+        if e[0] == "notify":
+            cancelled.update(e[4])
         if e[0] != "task" or e[5] == "ERR":
             continue
         op, t, tm = e[1], e[2], e[3]
+        if op == "cancel":
+            cancelled.add(t)
         if op == "finish":
             finishes[t] = finishes.get(t, 0) + 1
             fin[t] = e[6][0]
@@ -122,6 +127,12 @@ def mon_c02(run):
             if ti["terminal"]:
                 if ti["parents"] and not done:
                     bad.append("terminal task %s started at %s before any parent completed" % (t, tm))
+                # the join of a conditional waits for the branch that was taken: besides the conditional itself (a direct
+                # edge), some parent must have completed unless every such parent was cancelled
+                plain = [p for p in ti["parents"] if p in info and not info[p]["conditional"]]
+                if plain and not any(p in done for p in plain) and not all(p in cancelled for p in plain):
+                    bad.append("join %s started at %s although none of its branch parents %s has completed (and not all are cancelled)"
+                               % (t, tm, plain))
             elif len(done) != len(ti["parents"]):
                 missing = [p for p in ti["parents"] if p not in done]
                 bad.append("task %s started at %s before its predecessors %s completed" % (t, tm, missing))
@@ -338,6 +349,9 @@ def mon_c07(run, world):
                     bad.append("conditional %s released and cancelled the same child %s" % (t, c))
                 for o in kids:
                     if o != c and o not in canc and state.get(o) not in ("CANCELLED",):
+                        oi = info.get(o, {})
+                        if oi.get("terminal") and any(p != t and state.get(p) != "CANCELLED" for p in oi.get("parents", [])):
+                            continue      # the join itself, reached by a direct edge: it stays for the branch that was taken
                         bad.append("conditional %s took %s but its sibling %s was not cancelled (state %s)" % (t, c, o, state.get(o)))
             if len(rel) == 0 and live:
                 bad.append("conditional %s completed without releasing any of its runnable children %s" % (t, live))
@@ -369,10 +383,11 @@ def mon_c07(run, world):
     return bad
 
 
-def mon_c18(run, world, f36_out=None):
+def mon_c18(run, world, f36_out=None, f38_out=None):
     """the scheduling frontier as the policies saw it during whole simulations"""
     bad = []
     f36 = f36_out if f36_out is not None else []
+    f38 = f38_out if f38_out is not None else []
     info = graph_info(run)
     state = {}
     rel_time = {}
@@ -414,7 +429,10 @@ def mon_c18(run, world, f36_out=None):
                         ok = bool(done) if ti["terminal"] else len(done) == len(ti["parents"])
                         # known finding F36: a parent that is SCHEDULED with a placement being retried has a completion
                         # estimate in the past, and its child is offered although the parent has not started
+                        # known finding F38: an ancestor that is a dependency-free task still waiting for its own release
+                        # time (VIRTUAL, no parents) has no completion estimate at all, so its descendants count as ready
                         overdue = []
+                        unreleased = []
                         todo = [p for p in ti["parents"] if p not in fin]
                         seen_a = set()
                         while todo:               # incomplete ancestors, transitively
@@ -424,9 +442,13 @@ def mon_c18(run, world, f36_out=None):
                             seen_a.add(a)
                             if state.get(a) == "SCHEDULED":
                                 overdue.append(a)
+                            if state.get(a) == "VIRTUAL" and a in info and not info[a]["parents"]:
+                                unreleased.append(a)
                             todo += [q for q in info.get(a, {}).get("parents", []) if q not in fin]
                         if not ok and overdue:
                             f36.append("VIRTUAL task %s offered at %s while its ancestor %s is SCHEDULED but not started" % (n, now, overdue[0]))
+                        elif not ok and unreleased:
+                            f38.append("VIRTUAL task %s offered at %s while its ancestor %s has not even been released" % (n, now, unreleased[0]))
                         elif not ok:
                             bad.append("VIRTUAL task %s offered at %s (no lookahead) before its predecessors completed" % (n, now))
             for t, stt in state.items():
